@@ -1,0 +1,28 @@
+//go:build verif
+
+// Assumed contracts of the NAS message constructors (they build messages through bytes.Buffer and
+// binary.Write, outside the verifier's subset; their content is the business of C08/C09): each
+// returns some octets.  Comment-only file.
+
+package nasTestpacket
+
+//@ func GetRegistrationRequest
+//@ trusted
+//@ func GetAuthenticationResponse
+//@ trusted
+//@ func GetSecurityModeComplete
+//@ trusted
+//@ func GetRegistrationComplete
+//@ trusted
+//@ func GetDeregistrationRequest
+//@ trusted
+//@ func GetServiceRequest
+//@ trusted
+//@ func GetUlNasTransport_PduSessionEstablishmentRequest
+//@ trusted
+//@ func GetUlNasTransport_PduSessionReleaseRequest
+//@ trusted
+//@ func GetUlNasTransport_PduSessionReleaseComplete
+//@ trusted
+//@ func GetUlNasTransport_PduSessionModificationRequest
+//@ trusted
